@@ -86,6 +86,18 @@ def task(t):
             path = os.path.join(tmp, "t.npz")
             mg.save(path, x)
             y = mg.load(path)
+        elif via in ("str_noext", "str_dotted", "path_dotted"):
+            # numpy.savez appends ".npz" to a name that lacks it (and keeps every other dot): the archive is found under that name
+            stem = "t" if via == "str_noext" else "weights.bak"
+            path = os.path.join(tmp, stem)
+            other = mg.tensor(np.asarray(x.data).copy()) * 0 if x.dtype.kind == "f" else mg.tensor(np.zeros_like(x.data))
+            sib = os.path.join(tmp, "t2" if via == "str_noext" else "weights.old")
+            mg.save(pathlib.Path(path) if via == "path_dotted" else path, x)
+            mg.save(pathlib.Path(sib) if via == "path_dotted" else sib, other)       # a sibling name must not overwrite the first archive
+            names = sorted(os.listdir(tmp))
+            if names != sorted([stem + ".npz", os.path.basename(sib) + ".npz"]):
+                fails.append("save(%r) / save(%r) left the files %s" % (stem, os.path.basename(sib), names))
+            y = mg.load(path + ".npz")
         elif via == "path":
             path = pathlib.Path(tmp) / "t.npz"
             mg.save(path, x)
